@@ -293,6 +293,9 @@ class E1:
         elif op == "Sub":
             if self.le_holds(bb, a, rels):
                 return "ok", "guard %s <= %s" % (short(bb), short(a)), desc, True
+            from .logic import Ctx
+            if Ctx(b, bi, self.facts).le(bb, a):
+                return "ok", "%s <= %s by the guards and the algebra of checked sums / min / max" % (short(bb), short(a)), desc, True
             ca = self.const_of(a)
             if ca is not None and ca >= ISIZE_MAX and self.is_ab(bb, rels):
                 return "ok", "constant >= isize::MAX minus allocation-bounded value", desc, True
@@ -314,6 +317,26 @@ class E1:
             return "allow", ALLOW[key], desc, True
         what = "shift amount can reach the bit width" if op in ("Shl", "Shr") else "can overflow"
         return "bad", "caller-controlled operand, no dominating guard: `%s` %s (debug builds panic here, release builds wrap)" % (desc, what), desc, True
+
+    def fallback(self, b, bi, how):
+        """before reporting: (a) the same site with the function's crate-local helpers inlined (a guard that moved into
+        `ensure_available(..)`), (b) for a site inside a non-public helper, the site in the inlined view of every caller"""
+        from .inline import views, contexts, sites_in
+        for ib in views(self.facts, b):
+            v2, h2, _, _ = self.check_site(ib, bi, ib.blocks[bi]["term"], ExprBuilder(ib, self.facts, inline=True))
+            if v2 == "ok":
+                return "ok", h2 + " (with helpers inlined)", True
+        if b.kind in ("fn", "assoc_fn") and not str(b.vis).startswith("Public"):
+            from .inline import keep_pred
+            for atoms in (True, False):
+                verdicts = []
+                for cb in contexts(self.facts, b, pred=keep_pred(atoms=atoms)):
+                    ebc = ExprBuilder(cb, self.facts, inline=True)
+                    for sbi in sites_in(cb, b.did, bi):
+                        verdicts.append(self.check_site(cb, sbi, cb.blocks[sbi]["term"], ebc))
+                if verdicts and all(v[0] == "ok" for v in verdicts):
+                    return "ok", verdicts[0][1] + " (in the context of all %d call chains)" % len(verdicts), True
+        return "bad", how, True
 
     def shift_bits(self, b, bi, t, eb):
         loc = (bi, len(b.blocks[bi]["stmts"]))
@@ -378,6 +401,8 @@ def run(facts, prop=None):
                 res.ok("%s|debug-only#%d" % (b.id, n_dbg), b.loc(bi), "inside debug_assert!: not evaluated in release builds")
                 continue
             verdict, how, desc, nt = e1.check_site(b, bi, t, eb)
+            if verdict == "bad":
+                verdict, how, nt = e1.fallback(b, bi, how)
             op = t.get("op", t["ak"])
             key = "%s|%s|%s" % (b.id, op, desc)
             k = seen.get(key, 0)
